@@ -699,7 +699,7 @@ pub fn gen_layout_script(id: usize, rng: &mut Sm, numpy_env: bool, st: &mut Layo
     calls.push(call("get_orders", json!([]), json!({}), json!({"v": orders_json(env.get_orderbook())})));
     calls.push(call("get_trades", json!([]), json!({}), json!({"v": trades_json(env.get_orderbook())})));
     let _ = l2_of::<10>;
-    json!({"id": id, "kind": if numpy_env { "stepenvnumpy" } else { "stepenv" }, "ctor": {"args": [seed, t0, tick, step_size], "kwargs": {}}, "calls": calls, "dataframes": true, "self_oracle": true})
+    json!({"id": id, "kind": if numpy_env { "stepenvnumpy" } else { "stepenv" }, "ctor": {"args": [seed, t0, tick, step_size], "kwargs": {}}, "calls": calls, "dataframes": true, "self_oracle": true, "optional_ctor": step_size == 0})
 }
 
 /// C19: one level that holds more than 65536 resting orders (order counts beyond 16 bits in arrays, dictionary and
